@@ -132,7 +132,10 @@ def run(ctx):
                  "memory_full_info does not append (uss, pss, swap) of the smaps "
                  "parsers to memory_info() in that order")
     # fallback handler
-    hs = [h for tr_ in ast.walk(mf.node) if isinstance(tr_, ast.Try) for h in tr_.handlers]
+    # (in memory_full_info() itself or in a new helper it calls)
+    scopes_ = [mf.node] + [h_.node for h_ in repo.new_helpers_called_from(pm, "Process.memory_full_info")]
+    hs = [h for sc_ in scopes_ for tr_ in ast.walk(sc_) if isinstance(tr_, ast.Try)
+          for h in tr_.handlers]
     good = any(handler_catches(h, ["ProcessLookupError"]) and handler_catches(h, ["FileNotFoundError"])
                and not handler_catches(h, ["PermissionError"])
                and any(isinstance(c.func, ast.Attribute) and c.func.attr == "_parse_smaps"
@@ -282,10 +285,40 @@ def run(ctx):
                      f"`{norm_stmt(c)}`: the mapping header must be split at most 5 times "
                      f"so that a path containing spaces stays whole")
     # the per-mapping record: a >= 10-slot tuple literal, assigned or appended directly
-    item = [t_ for t_ in ast.walk(mm.node) if isinstance(t_, ast.Tuple) and len(t_.elts) >= 10
-            and isinstance(t_.ctx, ast.Load)]
+    def expanded(t_):
+        # (a, b, c, *[d.get(k, 0) for k in TABLE]) with TABLE a module-level tuple of
+        # constants: the slots the comprehension produces, spelled out
+        import copy as _copy
+        out_ = []
+        for e_ in t_.elts:
+            if isinstance(e_, ast.Starred) and isinstance(e_.value, (ast.ListComp, ast.GeneratorExp)) \
+                    and len(e_.value.generators) == 1 and not e_.value.generators[0].ifs \
+                    and isinstance(e_.value.generators[0].target, ast.Name):
+                g_ = e_.value.generators[0]
+                tbl = g_.iter
+                if isinstance(tbl, ast.Name):
+                    vs_ = repo.mod(pm).assigns.get(tbl.id, [])
+                    tbl = vs_[0] if len(vs_) == 1 else None
+                if isinstance(tbl, (ast.Tuple, ast.List)) and all(isinstance(x, ast.Constant)
+                                                                  for x in tbl.elts):
+                    for k_ in tbl.elts:
+                        el_ = _copy.deepcopy(e_.value.elt)
+                        for n_ in ast.walk(el_):
+                            for f_, v_ in ast.iter_fields(n_):
+                                if isinstance(v_, list):
+                                    for i_, x_ in enumerate(v_):
+                                        if isinstance(x_, ast.Name) and x_.id == g_.target.id:
+                                            v_[i_] = ast.copy_location(ast.Constant(k_.value), x_)
+                                elif isinstance(v_, ast.Name) and v_.id == g_.target.id:
+                                    setattr(n_, f_, ast.copy_location(ast.Constant(k_.value), v_))
+                        out_.append(ast.copy_location(el_, e_))
+                    continue
+            out_.append(e_)
+        return out_
+    item = [t_ for t_ in ast.walk(mm.node) if isinstance(t_, ast.Tuple)
+            and isinstance(t_.ctx, ast.Load) and len(expanded(t_)) >= 10]
     ctx.require(item, "memory_maps: result tuple vanished")
-    elts = item[0].elts
+    elts = expanded(item[0])
     ext = I.namedtuples.get((pm, "pmmap_ext"))
     ctx.require(ext and len(ext) == len(elts),
                 f"pmmap_ext has {len(ext or ())} fields but memory_maps builds {len(elts)}")
